@@ -166,24 +166,84 @@ func ruleEvalLocalsElements(c *Ctx, rule string) {
 // VM next.
 func rulePoolSymmetric(c *Ctx, rule string, pf *poolFacts) {
 	l := c.L
-	paths := func(fn *ssa.Function) []string {
-		set := map[string]bool{}
-		for _, ci := range l.StaticCallers(fn) {
-			caller := ci.Parent()
-			recv := ci.Common().Args[0]
-			root, path := accessPath(recv)
-			rd := "?"
-			if root != nil {
-				rd = describe(root)
+	isPoolMethod := func(f *ssa.Function) bool {
+		r := f.Signature.Recv()
+		return r != nil && isNamed(r.Type(), modPath, "vmPool") && f.Parent() == nil
+	}
+	// registry accesses of a role function and of the helpers split out of it:
+	// the pool value whose `vms` field is written (map update) or deleted from
+	regBases := func(role *ssa.Function, wantDelete bool) []ssa.Value {
+		var out []ssa.Value
+		eachInstrDeep(role, 2, func(ins ssa.Instruction) {
+			if !l.poolDomain()[ins.Parent()] {
+				return
 			}
-			_ = caller
-			set[rd+path] = true
+			var m ssa.Value
+			switch x := ins.(type) {
+			case *ssa.MapUpdate:
+				if !wantDelete {
+					m = x.Map
+				}
+			case *ssa.Call:
+				if bi, ok := x.Call.Value.(*ssa.Builtin); ok && bi.Name() == "delete" && wantDelete {
+					m = x.Call.Args[0]
+				}
+			}
+			if m == nil {
+				return
+			}
+			if u, ok := m.(*ssa.UnOp); ok {
+				if fa, ok := isFieldAddrOf(u.X, modPath, "vmPool", pf.fVMs); ok {
+					out = append(out, fa.X)
+				}
+			}
+		})
+		return out
+	}
+	// full path of a pool value relative to the receiver of the outermost pool
+	// method: the path inside the function, prefixed (recursively) by the path of
+	// the receiver argument at the call sites that are themselves pool methods
+	var full func(v ssa.Value, depth int) []string
+	full = func(v ssa.Value, depth int) []string {
+		root, path := accessPath(v)
+		fn := v.Parent()
+		if p, ok := root.(*ssa.Parameter); ok && fn != nil && len(fn.Params) > 0 && fn.Params[0] == p && depth < 4 {
+			var outs []string
+			composed := false
+			for _, ci := range l.StaticCallers(fn) {
+				if !isPoolMethod(ci.Parent()) && !l.poolDomain()[ci.Parent()] {
+					continue
+				}
+				composed = true
+				for _, pre := range full(ci.Common().Args[0], depth+1) {
+					outs = append(outs, pre+path)
+				}
+			}
+			if composed {
+				return outs
+			}
+			return []string{"recv" + path}
+		}
+		// a local copy of the pool pointer (rp := &v.root.pool)
+		if root != nil {
+			if _, isParam := root.(*ssa.Parameter); !isParam {
+				return []string{describe(root) + path}
+			}
+		}
+		return []string{"?" + path}
+	}
+	collect := func(role *ssa.Function, del bool) []string {
+		set := map[string]bool{}
+		for _, b := range regBases(role, del) {
+			for _, p := range full(b, 0) {
+				set[p] = true
+			}
 		}
 		return sortedKeys(set)
 	}
-	a, r := paths(pf.acquire), paths(pf.release)
+	a, r := collect(pf.acquire, false), collect(pf.release, true)
 	if len(a) == 0 || len(r) == 0 {
-		c.Und(rule, "call sites of the registering / unregistering pool methods", l.Pos(pf.acquire.Pos()), "no static call site found: shape not modelled")
+		c.Und(rule, "registry accesses of the registering / unregistering pool methods", l.Pos(pf.acquire.Pos()), "no map update / delete on the registry found: shape not modelled")
 		return
 	}
 	same := len(a) == len(r)
@@ -194,12 +254,8 @@ func rulePoolSymmetric(c *Ctx, rule string, pf *poolFacts) {
 			}
 		}
 	}
-	pos := l.Pos(pf.release.Pos())
-	if cs := l.StaticCallers(pf.release); len(cs) > 0 {
-		pos = l.Pos(cs[0].Pos())
-	}
-	c.Check(rule, "register and unregister address the same pool", pos, same, "both through "+strings.Join(a, ","),
-		fmt.Sprintf("children are registered on %v but unregistered on %v: a released child VM stays in the registry of its old root, whose Abort later aborts an unrelated run that got the VM from the pool", a, r))
+	c.Check(rule, "register and unregister address the same pool", l.Pos(pf.release.Pos()), same, "both through "+strings.Join(a, ","),
+		fmt.Sprintf("children are registered on %v but unregistered on %v (paths from the receiver of the outermost pool method): a released child VM stays in the registry of its old root, whose Abort later aborts an unrelated run that got the VM from the pool", a, r))
 }
 
 // ---- C14/child-bc-own (also C08) ------------------------------------------------------------------------
@@ -793,6 +849,23 @@ func ruleFoldRangeAgree(c *Ctx, rule string) {
 		return out
 	}
 	fs, vs := collect(fold, false), collect(vm, true)
+	// the VM's instructions may live in helpers the method was split into
+	eachInstrDeep(vm, 2, func(ins ssa.Instruction) {
+		h := ins.Parent()
+		if h == vm || ownerFn(l, h) != vm {
+			return
+		}
+		if _, done := vs[token.ILLEGAL]; done {
+			return
+		}
+	})
+	for _, h := range l.RepoFuncs(func(pp string) bool { return pp == modPath }) {
+		if h != vm && ownerFn(l, h) == vm {
+			for op, sites := range collect(h, true) {
+				vs[op] = append(vs[op], sites...)
+			}
+		}
+	}
 	n := 0
 	for _, op := range []token.Token{token.QUO, token.REM, token.SHL, token.SHR} {
 		for _, f := range fs[op] {
@@ -1096,24 +1169,41 @@ func ruleThrowReentry(c *Ctx, rule string) {
 // fragment that imports it makes Compile panic (index out of range).
 func ruleCompileRollback(c *Ctx, rule string, run *ssa.Function, compileCall ssa.Instruction) {
 	l := c.L
-	_, fStoreMap := l.structField(modPath, "moduleStore", "store")
-	_, fCount := l.structField(modPath, "moduleStore", "count")
-	if !c.Anchor(rule, "moduleStore.store / count", fStoreMap >= 0 && fCount >= 0) {
+	// the module store is what the compile call receives by pointer as its last argument
+	var msT types.Type
+	if args := compileCall.(ssa.CallInstruction).Common().Args; len(args) > 0 {
+		if pt, ok := args[len(args)-1].Type().Underlying().(*types.Pointer); ok {
+			msT = pt.Elem()
+		}
+	}
+	if !c.Anchor(rule, "type of the module store passed to the compile call", msT != nil) {
 		return
+	}
+	isStoreField := func(v ssa.Value) bool {
+		fa, ok := v.(*ssa.FieldAddr)
+		if !ok {
+			return false
+		}
+		pt, ok := fa.X.Type().Underlying().(*types.Pointer)
+		return ok && types.Identical(pt.Elem(), msT)
 	}
 	writesStore := func(f *ssa.Function) bool {
 		r := f.Signature.Recv()
-		if r == nil || !isNamed(r.Type(), modPath, "moduleStore") {
+		if r == nil {
+			return false
+		}
+		rt := r.Type()
+		if pt, ok := rt.(*types.Pointer); ok {
+			rt = pt.Elem()
+		}
+		if !types.Identical(rt, msT) {
 			return false
 		}
 		w := false
 		eachInstr(f, func(ins ssa.Instruction) {
 			switch x := ins.(type) {
 			case *ssa.Store:
-				if _, ok := isFieldAddrOf(x.Addr, modPath, "moduleStore", fCount); ok {
-					w = true
-				}
-				if _, ok := isFieldAddrOf(x.Addr, modPath, "moduleStore", fStoreMap); ok {
+				if isStoreField(x.Addr) {
 					w = true
 				}
 			case *ssa.MapUpdate:
@@ -1165,4 +1255,151 @@ func ruleCompileRollbackAuto(c *Ctx, rule string) {
 		return
 	}
 	ruleCompileRollback(c, rule, run, compileCall)
+}
+
+// ---- C19/field-init ----------------------------------------------------------------------------------------------------
+// Library objects whose interface- or pointer-typed field is used without a nil
+// test (scanArg.argValue.Arg()) are completely built by the functions that hand
+// them out: from the allocation of such a struct, every path to a return that
+// can carry a nil error stores the field.  An empty `case` arm in the
+// constructor's switch yields an object that panics (nil dereference) when it
+// is passed to the function that uses it.
+func ruleFieldInit(c *Ctx, rule string) {
+	l := c.L
+	inScope := func(pp string) bool { return strings.HasPrefix(pp, modPath+"/stdlib") }
+	type tf struct {
+		t *types.Named
+		f int
+	}
+	required := map[tf]string{}
+	fieldOf := func(fa *ssa.FieldAddr) (tf, bool) {
+		pt, ok := fa.X.Type().Underlying().(*types.Pointer)
+		if !ok {
+			return tf{}, false
+		}
+		nt, ok := pt.Elem().(*types.Named)
+		if !ok || nt.Obj().Pkg() == nil || !inScope(nt.Obj().Pkg().Path()) {
+			return tf{}, false
+		}
+		st, ok := nt.Underlying().(*types.Struct)
+		if !ok {
+			return tf{}, false
+		}
+		switch st.Field(fa.Field).Type().Underlying().(type) {
+		case *types.Interface, *types.Pointer:
+			return tf{nt, fa.Field}, true
+		}
+		return tf{}, false
+	}
+	for _, fn := range l.RepoFuncs(inScope) {
+		eachInstr(fn, func(ins ssa.Instruction) {
+			fa, ok := ins.(*ssa.FieldAddr)
+			if !ok || fa.Referrers() == nil {
+				return
+			}
+			k, ok := fieldOf(fa)
+			if !ok {
+				return
+			}
+			for _, r := range *fa.Referrers() {
+				ld, ok := r.(*ssa.UnOp)
+				if !ok || ld.Op != token.MUL || ld.Referrers() == nil {
+					continue
+				}
+				for _, u := range *ld.Referrers() {
+					used := false
+					switch x := u.(type) {
+					case *ssa.Call:
+						used = x.Call.IsInvoke() && x.Call.Value == ssa.Value(ld)
+					case *ssa.FieldAddr:
+						used = x.X == ssa.Value(ld)
+					}
+					if !used {
+						continue
+					}
+					guarded := false
+					for _, g := range guardEdges(u.(ssa.Instruction).Block()) {
+						if bo, ok := g.If.Cond.(*ssa.BinOp); ok && (bo.Op == token.NEQ || bo.Op == token.EQL) {
+							for _, pr := range [][2]ssa.Value{{bo.X, bo.Y}, {bo.Y, bo.X}} {
+								if k2, ok := pr[1].(*ssa.Const); ok && k2.IsNil() && (pr[0] == ssa.Value(ld) || exprEq(pr[0], ld)) && (bo.Op == token.NEQ) == g.Truth {
+									guarded = true
+								}
+							}
+						}
+					}
+					if !guarded {
+						if _, had := required[k]; !had {
+							required[k] = fnName(fn)
+						}
+					}
+				}
+			}
+		})
+	}
+	n := 0
+	for _, fn := range l.RepoFuncs(inScope) {
+		ei := errResultIndex(fn)
+		eachInstr(fn, func(ins ssa.Instruction) {
+			al, ok := ins.(*ssa.Alloc)
+			if !ok || !al.Heap {
+				return
+			}
+			nt, ok := al.Type().(*types.Pointer).Elem().(*types.Named)
+			if !ok {
+				return
+			}
+			for k, user := range required {
+				if k.t != nt {
+					continue
+				}
+				// only allocations that are returned
+				returned := false
+				for _, b := range fn.Blocks {
+					if ret, ok := b.Instrs[len(b.Instrs)-1].(*ssa.Return); ok {
+						for _, rv := range ret.Results {
+							if derivesFrom(rv, func(v ssa.Value) bool { return v == ssa.Value(al) }, 3) {
+								returned = true
+							}
+						}
+					}
+				}
+				if !returned {
+					continue
+				}
+				n++
+				via := func(x ssa.Instruction) bool {
+					st, ok := x.(*ssa.Store)
+					if !ok {
+						return false
+					}
+					if fa, ok := st.Addr.(*ssa.FieldAddr); ok && fa.X == ssa.Value(al) && fa.Field == k.f {
+						if kk, isC := st.Val.(*ssa.Const); isC && kk.IsNil() {
+							return false
+						}
+						return true
+					}
+					// whole-struct store
+					return st.Addr == ssa.Value(al)
+				}
+				target := func(x ssa.Instruction) bool {
+					ret, ok := x.(*ssa.Return)
+					if !ok {
+						return false
+					}
+					if ei >= 0 && ei < len(ret.Results) && definitelyNonNilErr(ret.Results[ei], 0) {
+						return false
+					}
+					return true
+				}
+				_, ok2 := mustPassBefore(al, via, target)
+				fname := nt.Underlying().(*types.Struct).Field(k.f).Name()
+				c.Check(rule, fmt.Sprintf("%s | new %s: field %s", fnName(fn), nt.Obj().Name(), fname), l.Pos(al.Pos()), ok2, "stored on every path to a successful return (used unchecked by "+user+")",
+					"a path returns a "+nt.Obj().Name()+" whose "+fname+" was never set; "+user+" uses the field without a nil test: the object panics (nil dereference) when it is used")
+			}
+		})
+	}
+	c.extra["stdlib_fields_used_unchecked"] = len(required)
+	if n == 0 {
+		c.Ok(rule, "no returned library object with a field used unchecked", "-", fmt.Sprintf("%d fields used without a nil test", len(required)))
+	}
 }
